@@ -324,6 +324,29 @@ def tet_order(c, k):
     return list(PERMS4[(c.get("salt", 0) + 5 * k) % 24])
 
 
+def edge_extension_observers(rng, tris, n=2):
+    """observers close to (not on) the straight extension of a triangle edge, where triangle_Bfield switches between
+    its general and its edge-line formula: r*(1+cos(theta)) / l in [2.5e-7, 1e-4] (cone half angle 0.7e-3 .. 1.4e-2
+    rad), r in [0.15, 0.6] l beyond the vertex.  The unchanged implementation is accurate to < 2e-8 there; closer
+    to the line its general formula loses precision (documented), which is why the window stops at 2.5e-7."""
+    out = []
+    for _ in range(n):
+        t = tris[rng.randrange(len(tris))]
+        k = rng.randrange(3)
+        a, b = np.array(t[k], dtype=float), np.array(t[(k + 1) % 3], dtype=float)
+        L = b - a
+        l = float(np.linalg.norm(L))
+        e = L / l
+        r = rnd(rng, 0.15, 0.6) * l
+        q = 10 ** rng.uniform(math.log10(2.5e-7), -4.0)
+        d = math.sqrt(2 * q * l / r)
+        w = np.cross(e, np.array([rng.gauss(0, 1) for _ in range(3)]))
+        w = w / np.linalg.norm(w)
+        p = (b + e * r + w * d * r) if rng.random() < 0.5 else (a - e * r + w * d * r)
+        out.append([float(x) for x in p])
+    return out
+
+
 def gen_cuboid_repr(rng):
     dim = [rnd(rng, 0.4, 3.0) for _ in range(3)]
     rep = rng.choice(["mesh", "tetra5", "tetra6", "triangles", "mesh_shuffled"])
@@ -351,6 +374,9 @@ def gen_cuboid_repr(rng):
             continue
         # the diagonals of the faces are triangle edges: stay away from the planes through them only when on a face
         obs.append(p)
+    if rep in ("mesh", "mesh_shuffled", "triangles") and rng.random() < 0.5:
+        Vc = np.array(CUBE_V, dtype=float) * np.array(half)
+        obs += edge_extension_observers(rng, [[Vc[i] for i in f] for f in CUBE_F])
     perm = list(range(12))
     flips = [0] * 12
     if rep == "mesh_shuffled":
@@ -480,6 +506,8 @@ def gen_mesh_convert(rng):
         if any(abs(float(n @ np.array(p)) - o) <= margin for n, o in planes):
             continue
         obs.append(p)
+    if conv == "hull_cuboid" and rng.random() < 0.5:
+        obs += edge_extension_observers(rng, tris)
     pose = gen_pose(rng)
     npath = rng.choice([1, 1, 1, 2, 3]) if conv == "to_TriangleCollection" else 1
     path = [[rnd(rng, -1, 1) for _ in range(3)] for _ in range(npath - 1)]
@@ -501,6 +529,9 @@ def gen_mixed_partition(rng):
     reps = [rng.choice(SLAB_REPS) for _ in range(n)]
     if all(r == "cuboid" for r in reps):
         reps[rng.randrange(n)] = rng.choice(SLAB_REPS[1:])
+    same_count = rng.random() < 0.35
+    if same_count:      # sub-box meshes with EQUAL face count and unequal size (grouping of "identical" meshes)
+        reps = [rng.choice(["mesh12", "mesh12", "mesh24"])] * n
     size = max(dim)
     margin = 0.03 * min(min(dim), min(edges[i + 1] - edges[i] for i in range(n)))
     planes = []
@@ -529,7 +560,7 @@ def gen_mixed_partition(rng):
         obs.append(p)
     return {"family": "mixed_partition", "dim": dim, "axis": ax, "edges": edges, "reps": reps, "pol": gen_pol(rng),
             "pose": gen_pose(rng), "obs": obs, "salt": rng.randrange(24),
-            "mode": rng.choice(["sumup", "collection", "loop"])}
+            "mode": rng.choice(["sumup", "collection"] if same_count else ["sumup", "collection", "loop"])}
 
 
 def _slab_vertices(lo, hi):
